@@ -34,3 +34,24 @@ Definition show_lin (c : lin_case) : string :=
   let '(ver, ops, ft, jt, paths, ms) := c in
   let s := state_of c in
   (show_paths s ++ "##" ++ join_with ";;" (map (fun pm => show_merged s (fst pm)) ms))%string.
+
+(* the whole graph after merge_linear_paths(): the paths gfapy found, merged one after the other *)
+Definition merge_case := (string * list op * list (string * string) * list (string * option string) *
+                          list (list send) * string)%type.
+
+Definition merged_state (c : merge_case) : res gfa :=
+  let '(ver, ops, ft, jt, paths, _) := c in
+  merge_paths (run_ops (table_oracle ft jt) (init_gfa ver 1) ops) paths.
+
+Definition check_merge (c : merge_case) : bool :=
+  let '(ver, ops, ft, jt, paths, after) := c in
+  match merged_state c with
+  | Ok s' => String.eqb (obs s') after
+  | Err e => String.eqb ("err:" ++ exn_name e) after
+  end.
+
+Definition show_merge (c : merge_case) : string :=
+  match merged_state c with
+  | Ok s' => obs s'
+  | Err e => ("err:" ++ exn_name e)%string
+  end.
